@@ -32,6 +32,9 @@ partial def pOp (j : Json) : R (Op CFloat) := do
   | "kraus" =>
     let ks ← listF (fun k => do return (← asList Driver.C01.pC k).toArray) j "ks"
     return .kraus ks (← listF asNat j "axes")
+  | "pmeas" =>
+    let ks ← listF (fun k => do return (← asList Driver.C01.pC k).toArray) j "projs"
+    return .pmeasure (← strF j "key") ks (← listF asNat j "axes")
   | "reset" => return .reset (← listF asNat j "axes")
   | _ => throw s!"unknown op kind {kind}"
 
